@@ -115,15 +115,50 @@ func (s *c07Sys) Canon() string {
 			fmt.Fprintf(&sb, " [%s:%s%d sx=%v cx=%v c=%v]", r.Subject, r.PwUser, r.PwVer-c07D.pw[r.PwUser], r.SignedExp.After(now), r.ColExp.After(now), r.Corrupt)
 		}
 	}
-	// the real stores, by presence
+	// the real stores: presence and what each stored record really says (signed
+	// subject, whether its signed and column expiries have passed, which of the
+	// candidate passwords its hash verifies), so that two histories the model
+	// cannot tell apart are still kept apart when the implementation's rows differ
 	for _, db := range []*sql.DB{s.w.state.db, s.w.state.cacheDB} {
 		for _, u := range []string{"alice", "bob"} {
 			var n int
 			db.QueryRow("select count(*) from expiring_signed_user_data where username=? and type=?", u, c07Type).Scan(&n)
-			fmt.Fprintf(&sb, " r%d", n)
+			fmt.Fprintf(&sb, " r%d%s", n, c07RowDigest(db, u))
 		}
 	}
 	return sb.String()
+}
+
+var c07HashMemo = map[string]bool{}
+
+func c07RowDigest(db *sql.DB, u string) string {
+	var jws string
+	var colExp int64
+	if err := db.QueryRow("select jws_data, expiration_epoch from expiring_signed_user_data where username=? and type=?", u, c07Type).Scan(&jws, &colExp); err != nil {
+		return ""
+	}
+	_, cl, _, ok := c04Split(jws)
+	if !ok {
+		return "{undecodable}"
+	}
+	sub, _ := cl["sub"].(string)
+	exp, _ := c04Num(cl["exp"])
+	hash, _ := cl["data"].(string)
+	now := vclock.Now().Unix()
+	mask := ""
+	for _, cand := range []struct{ who string; dv int }{{"alice", 0}, {"alice", -1}, {"bob", 0}, {"bob", -1}} {
+		pw := c07Pw(cand.who, c07D.pw[cand.who]+cand.dv)
+		k := hash + "\x00" + pw
+		v, seen := c07HashMemo[k]
+		if !seen {
+			v = authutil.Argon2CompareHashAndPassword(hash, []byte(pw)) == nil
+			c07HashMemo[k] = v
+		}
+		if v {
+			mask += fmt.Sprintf("%s%d", cand.who[:1], cand.dv)
+		}
+	}
+	return fmt.Sprintf("{%s sx=%v cx=%v pw=%s}", sub, exp > now, colExp > now, mask)
 }
 
 func (s *c07Sys) rowPresent(db *sql.DB, u string) bool {
